@@ -56,6 +56,9 @@ def example_sources(rng, k):
         return ['def f%d(x):' % k, "    print('in f', x)", '    return x'], None, None
     if r < 0.70:
         return ['p%d = t(%d); q%d = p%d + 1' % (k, k, k, k)], None, None
+    if r < 0.715:
+        # a trailing semicolon (valid: an empty statement follows): the value of the expression in front of it is still echoed
+        return [rng.choice(['t(%d) + 1000;' % k, "print('o%da', t(%d));" % (k, k), 'tn(%d);' % k, 't(%d) + 1000;   # note' % k, 'e%d = t(%d); e%d;' % (k, k, k)])], None, None
     if r < 0.74:
         return ['# a comment', 'c%d = t(%d)' % (k, k)], None, None
     if r < 0.76:
